@@ -101,6 +101,11 @@ def full4 {α : Type} (l : List α) (d : α) : List α := List.replicate (4 - l.
 
 def delIdx {α : Type} (l : List α) (i : Nat) : List α := l.eraseIdx i
 
+/-- the loop over `num_convs = ceil(h / height_per_conv)`: `(read offset, kernel height)`; the last kernel takes the remainder -/
+def meanChunks (h hpc : Nat) : List (Nat × Nat) :=
+  let num := (h + hpc - 1) / hpc
+  (List.range num).map fun i => (i * hpc, if i + 1 == num && h % hpc != 0 then h % hpc else hpc)
+
 /-- `convert_mean_to_depthwise_conv` after the memcpy shortcut: `shape`, `reduce` as given (rank ≤ 4).
     `none`: the assertion "none of H,W,C has shape 1" fails, or a division by zero (`w = 0`). -/
 def meanPlan (shape : List Nat) (reduce : List Bool) : Option MeanPlan :=
@@ -125,11 +130,8 @@ def meanPlan (shape : List Nat) (reduce : List Bool) : Option MeanPlan :=
   if w = 0 then none else
   let hpc := min (min (4096 / w) h) 64
   if hpc = 0 then none else
-  let num := (h + hpc - 1) / hpc
-  let convs := (List.range num).map fun i =>
-    let last := i + 1 == num
-    let wh := if last && h % hpc != 0 then h % hpc else hpc
-    (i * hpc, wh, (if red4.getD 1 false then wh else shp4.getD 1 1), (if red4.getD 2 false then w else shp4.getD 2 1))
+  let convs := (meanChunks h hpc).map fun (off, wh) =>
+    (off, wh, (if red4.getD 1 false then wh else shp4.getD 1 1), (if red4.getD 2 false then w else shp4.getD 2 1))
   some ⟨shp4, int4, h, w, n, hpc, convs⟩
 
 /-- floor(log2 n) for n ≥ 1 -/
